@@ -1,6 +1,7 @@
 package route
 
 import (
+	"errors"
 	"fmt"
 	"regexp"
 	"sort"
@@ -31,6 +32,9 @@ const (
 	// the framework's own rewrite middleware with one rule (arg "from=>to"): it overrides the
 	// path when the rule applies and calls Next
 	effRewrite
+	// the fallback-page idiom: err := c.Next(); when the router answers 404/405 (nothing after
+	// this handler matched) the handler overrides the path (arg) and calls Next again
+	effFallback
 )
 
 // rewriteTarget gives the path the rewrite middleware sets for the rule "from=>to" on the
@@ -506,6 +510,16 @@ func (b *builder) handler(h hspec) fiber.Handler {
 			c.Path(derivePath(c.Path(), c.OriginalURL(), h.Arg))
 		case effMethod:
 			c.Method(h.Arg)
+		case effFallback:
+			err := c.Next()
+			var fe *fiber.Error
+			// (a page that falls back to itself has nothing to override: without an override the
+			// statement says nothing about a second Next)
+			if errors.As(err, &fe) && (fe.Code == 404 || fe.Code == 405) && c.Path() != h.Arg {
+				c.Path(h.Arg)
+				return c.Next()
+			}
+			return err
 		}
 		return c.Next()
 	}
@@ -833,6 +847,9 @@ type expectation struct {
 	Derived bool `json:"path_override_derived_from_current_path"`
 	// Rewrite: the override was made by the rewrite middleware
 	Rewrite bool `json:"path_override_by_rewrite_middleware"`
+	// Fallback: a handler called Next, got the router's 404/405 back because no later route
+	// matched, then overrode the path and called Next again
+	Fallback bool `json:"path_override_after_next_returned_not_found"`
 }
 
 func (o *oracle) laterTwin(i int) bool {
@@ -916,6 +933,7 @@ func (o *oracle) expect(m, path string) *expectation {
 		return ex
 	}
 	endpointRan := false
+	fbPending := false
 	for i := range o.p.Units {
 		u := &o.p.Units[i]
 		if !o.solo(i, m, path) {
@@ -977,8 +995,52 @@ func (o *oracle) expect(m, path string) *expectation {
 					m = h.Arg
 					ex.MethodOv = true
 				}
+			case effFallback:
+				later := false
+				for j := i + 1; j < len(o.p.Units); j++ {
+					if o.solo(j, m, path) {
+						later = true
+						break
+					}
+				}
+				if later {
+					// routes after this one run first; should they all pass on, the handler
+					// overrides the path with the cursor wherever the first pass left it: which
+					// routes are "later" then is not settled by the statement
+					fbPending = true
+					break
+				}
+				// nothing after this handler matches: Next returns the router's 404/405, the
+				// handler overrides the path and the rest of the chain is the later-registered
+				// routes matching the new path
+				// the handler compares c.Path(), the decoded path without query, with its page
+				if o.p.Cfg.Unescape && strings.ContainsAny(path+orig, "%+") || strings.ContainsAny(path+orig, "?#") {
+					ex.Ambiguous = true
+				}
+				if h.Arg == path {
+					// already on the fallback page: the handler returns the error as it is
+					ex.Exhausted = true
+					ex.Fallback = true
+					if fbPending {
+						// the error travels on to an earlier fallback handler
+						ex.Ambiguous = true
+					}
+					return ex
+				}
+				ex.Fallback = true
+				if o.laterTwin(i) {
+					ex.Ambiguous = true
+				}
+				if !sameBucket(o.p.Cfg, path, h.Arg) {
+					ex.CrossBkt = true
+				}
+				path = h.Arg
+				ex.PathOv = true
 			}
 		}
+	}
+	if fbPending {
+		ex.Ambiguous = true
 	}
 	ex.Exhausted = true
 	ex.FinalM, ex.FinalP = m, path
@@ -1076,6 +1138,48 @@ func runDispatch(e *ev.Env) {
 			e.Stat("incremental_without_cut", 1)
 		}
 		checkProgramStaged(e, c, p, reqs, plan)
+	})
+	// Fallback pages: a handler calls Next, receives the router's 404/405 because nothing after
+	// it matched, overrides the path and calls Next again. The rest of the chain has to be the
+	// routes registered after that handler which match the new path.
+	e.Cases("fallback", e.N(1500, 60000), func(c *ev.Case) {
+		r := c.R
+		p := genProgram(r)
+		reqs := genRequests(r, p, e.N(30, 50))
+		nfb := 0
+		for i := range p.Units {
+			u := &p.Units[i]
+			last := &u.Hs[len(u.Hs)-1]
+			mw := u.Kind == "use" || u.Kind == "usenp" || u.Kind == "groupuse"
+			if !(mw && last.Eff == effNext && r.Chance(1, 2) || last.Eff == effPath && r.Chance(1, 2)) || nfb >= 3 {
+				continue
+			}
+			nfb++
+			last.Eff = effFallback
+			// the page to fall back to: some registered path, spelled out
+			t := p.Units[r.Intn(len(p.Units))]
+			last.Arg = fillSimple(r, p.fullPath(&t))
+			if t.Kind == "usenp" || last.Arg == "" || last.Arg[0] != '/' {
+				last.Arg = fillSimple(r, genPath(r))
+			}
+			// requests that nothing is registered for, in the fallback page's index bucket and
+			// elsewhere, under the prefix the handler is mounted on
+			base := strings.TrimRight(fillSimple(r, p.fullPath(u)), "/")
+			if u.Kind == "usenp" {
+				base = strings.TrimRight(p.groupPrefix(u.Gid), "/")
+			}
+			for k := 0; k < 6; k++ {
+				path := base + "/" + r.StringFrom("abcx1", r.Range(1, 4))
+				if k%2 == 0 && len(last.Arg) >= 3 {
+					path = last.Arg[:3] + r.StringFrom("abcx1/", r.Range(0, 3))
+				}
+				reqs = append(reqs, [2]string{gen.Pick(r, p.Cfg.Methods()), path})
+			}
+		}
+		if nfb == 0 {
+			e.Stat("fallback_program_without_fallback_handler", 1)
+		}
+		checkProgram(e, c, p, reqs)
 	})
 }
 
@@ -1214,6 +1318,10 @@ func judgeRequests(e *ev.Env, c *ev.Case, p *program, o *oracle, full *drive.Dir
 			ctxClass += "+by-rewrite-middleware"
 			e.Stat("overrides_by_rewrite_middleware", 1)
 		}
+		if ex.Fallback {
+			ctxClass += "+after-next-returned-not-found"
+			e.Stat("overrides_after_next_returned_not_found", 1)
+		}
 		if ex.Derived && ex.PathOv {
 			ctxClass += "+new-path-derived-from-current-path"
 			e.Stat("overrides_derived_from_current_path", 1)
@@ -1273,6 +1381,11 @@ func judgeRequests(e *ev.Env, c *ev.Case, p *program, o *oracle, full *drive.Dir
 			}
 			e.Violation(c, sig,
 				fmt.Sprintf("%s %s ran handlers %v, registration-order filter of individually matching routes gives %v", m, path, got, ex.Trace), detail())
+			continue
+		}
+		if ex.Fallback && ex.Exhausted {
+			// the first pass already produced a 404/405 (and possibly an Allow header): only the
+			// chain is judged
 			continue
 		}
 		if ex.Exhausted && ex.Status == 0 && resp.Status == 405 {
